@@ -463,8 +463,8 @@ NumPool1(ty, nu) ==
          IN {List(<<z0>>), List(<<z0, a0>>), List(<<a0, z0>>), List(<<cA, zn, b>>), Lines(<<z0>>), Lines(<<a0, z0>>)}
             \cup (IF HasAlt(nu) THEN {List(<<Num(Z, Alt1(nu), 0, nu), a1>>)} ELSE {}))
      \* look-alike options: the value's number in another unit, alone / beside a real option / in both forms
-     \* (not for km nodes: 3 m on the km scale overflows TLC's 32-bit rationals in NearBases)
-     \cup (IF HasAlt(nu) /\ nu # "km" THEN {Lines(<<Trap(A, nu)>>), Lines(<<Trap(A, nu), b>>), Lines(<<Trap(B, nu), cA>>),
+     \* (for nodes in m only: 3 m on the km scale, 3 ms on the s scale overflow the 32-bit rationals of NearBases in the thorough pools)
+     \cup (IF nu = "m" THEN {Lines(<<Trap(A, nu)>>), Lines(<<Trap(A, nu), b>>), Lines(<<Trap(B, nu), cA>>),
                                List(<<Trap(A, nu), Trap(B, nu)>>), One(At("==", "self", Trap(A, nu)))} ELSE {})
      \* a literal written without unit is read in the node's unit (like an option or a modification)
      \cup {One(At(op, "self", l)) : op \in Ops6, l \in {a0, Num(B, "", 0, nu)}}
